@@ -202,8 +202,8 @@ func RunC11(c *Ctx) error {
 			if hasFlag(fs, "-no_lexer") && !gc.HasSyntax {
 				continue
 			}
-			if c.Tier == "quick" && gc.IR != nil && gc.IR.Big && !(len(fs) == 0 || len(fs) == 1 && fs[0] == "-zip") {
-				continue // seconds per run: the quick tier keeps two flag sets for the big grammar
+			if c.Tier == "quick" && gc.IR != nil && gc.IR.Big && (gc.IR.Heavy || !(len(fs) == 0 || len(fs) == 1 && fs[0] == "-zip")) {
+				continue // seconds per run: the quick tier keeps two flag sets for the big grammar (and leaves the many-productions one to the thorough tier)
 			}
 			_ = gc
 			cfgs = append(cfgs, &cfg{gi: gi, flags: flags})
